@@ -2,14 +2,130 @@
 KANI = "bounded model checking of the real Rust source (Kani/CBMC, SAT verdict over all symbolic inputs within stated bounds)"
 CLAIMS = {
     "C01": {
-        "engine": "kani",
-        "technique": KANI,
+        "engine": 'kani',
+        "technique": 'bounded model checking of the real Rust source (Kani/CBMC, SAT verdict over all symbolic inputs within stated bounds)',
         "design_ref": "DESIGN.md section 6, C01",
-        "text": "Every leaf decoder and every composite decoder position is executed symbolically on all byte strings inside the "
-                "stated size bound; the verdict is the SAT solver's over all of them (panics, index/slice bounds, arithmetic overflow, "
-                "pointer checks, unwinding assertions = termination). Bounded, not a proof: sizes beyond the bounds are not claimed.",
-        "note": "Trusted: Kani/CBMC/CaDiCaL; model crates for pyo3/socket2/rand/ciphers/digests in the op/socket layers; "
-                "fmt::format, f64 parsing and from_utf8 stubbed where stated; dev-profile semantics.",
+        "text": 'Leaf decoders on every byte string up to the stated length (2..12 octets); message decoders on a well-formed prefix up to each parse position followed by 4 unconstrained octets; the receive loop with the decoder scripted (cut S8); decrypt with any salt length. Verdict = no panic / bounds / overflow / unwinding (termination) check fails for ANY such input.',
+        "note": 'Trusted: Kani 0.68 / CBMC 6.11 / CaDiCaL; dev-profile semantics; stubs fmt::format, f64 parsing, from_utf8 (S1,S2,S3b); model socket/pyo3 in the loop harness; unconstrained regions longer than stated and the 4080-octet maximum are outside the claim.',
+    },
+    "C02": {
+        "engine": 'kani',
+        "technique": 'bounded model checking of the real Rust source (Kani/CBMC, SAT verdict over all symbolic inputs within stated bounds)',
+        "design_ref": "DESIGN.md section 6, C02",
+        "text": "For every supported value type, concrete tag/length form with fully symbolic content (+ symbolic trailing octet): typed decoder and SnmpValue dispatcher return exactly the X.690 denotation (two's complement / unsigned big endian / slice identity / special REAL values / binary REAL operands); conversion to the Python object model preserves value and type (OpGet harnesses).",
+        "note": "Trusted: Kani 0.68 / CBMC 6.11 / CaDiCaL; dev-profile semantics; numeric value of decimal/binary REAL (float arithmetic) not decided, only acceptance, extent and operands; at most 1 varbind in the Python-object harnesses; OID->text rendering cut (S3') in op harnesses.",
+    },
+    "C03": {
+        "engine": 'kani+crosshair',
+        "technique": 'bounded model checking of the real Rust source (Kani/CBMC) + symbolic execution of the real Python modules (CrossHair/Z3)',
+        "design_ref": "DESIGN.md section 6, C03",
+        "text": 'Decomposed: (A) the real Op::from_python + push_pdu of v1/v2c/v3 into a local buffer equals an independent reference encoding for symbolic community/OID/engine/key contents at concrete lengths; (B) the real send path with push_pdu stubbed: request-id == masked random draw for every 64-bit draw, exactly the buffer content is sent once, nothing sent on error; (C) pooled buffer empty on reuse; Python fetch()/version policy by CrossHair.',
+        "note": 'Trusted: Kani 0.68 / CBMC 6.11 / CaDiCaL; dev-profile semantics; text->OID cut S7 (decided in C08); end-to-end pymethod query measured infeasible (65 GB); buffer capacity 160 (hook); request-id widths concrete per query; GetNext/GetBulk PDUs covered at op level.',
+    },
+    "C04": {
+        "engine": 'kani',
+        "technique": 'bounded model checking of the real Rust source (Kani/CBMC, SAT verdict over all symbolic inputs within stated bounds)',
+        "design_ref": "DESIGN.md section 6, C04",
+        "text": "The real unwrap_pdu of v1/v2c/v3 on messages built as structs with arbitrary community/user/engine id/msgID/request-id after real random draws: delivered <=> identity and latest ids match (any i64 id, so modulo/prefix confusions are covered); decoders reject every 2-octet version value other than the session's; the receive loop skips strays, delivers the matching reply, ends on undecodable input.",
+        "note": "Trusted: Kani 0.68 / CBMC 6.11 / CaDiCaL; dev-profile semantics; scripts longer than 2 datagrams follow by induction on 'the session holds one outstanding id' (paper step); decoder cut S8 in the loop harness.",
+    },
+    "C05": {
+        "engine": 'kani+crosshair',
+        "technique": 'bounded model checking of the real Rust source (Kani/CBMC) + symbolic execution of the real Python modules (CrossHair/Z3)',
+        "design_ref": "DESIGN.md section 6, C05",
+        "text": 'Walk step lemmas shared with C06 (one step from any iterator state and any reply equals the reference step) and the Python iterator wrappers (sync and async) yield exactly the concatenation of what the socket returns up to the end marker. The closed loop over a finite MIB is the composition of the step lemma with an RFC 3416 agent (paper argument; a bounded closed-loop harness is listed as thorough/optional).',
+        "note": 'Trusted: Kani 0.68 / CBMC 6.11 / CaDiCaL; dev-profile semantics; OIDs up to 4 octets, replies up to 1 (quick) / 2-3 (thorough) varbinds; precedes cut S6 with its guarantee harness; CrossHair contracts bounded to 3+3 items.',
+    },
+    "C06": {
+        "engine": 'kani+crosshair',
+        "technique": 'bounded model checking of the real Rust source (Kani/CBMC) + symbolic execution of the real Python modules (CrossHair/Z3)',
+        "design_ref": "DESIGN.md section 6, C06",
+        "text": 'One step of the real OpGetNext/OpGetBulk + GetIter from an ARBITRARY reachable state and an arbitrary reply (any OIDs of 1..4 octets, 6 value kinds incl. the three exception values): yields only in-subtree, strictly increasing (arc-wise) data values in order, follow-up request == last accepted OID, stops otherwise; SnmpOid::precedes == arc-wise order for all OIDs up to 4 octets. Termination = strictly increasing OIDs under a fixed prefix (paper step).',
+        "note": "Trusted: Kani 0.68 / CBMC 6.11 / CaDiCaL; dev-profile semantics; model pyo3; OID rendering cut S3'; larger replies in thorough tier.",
+    },
+    "C07": {
+        "engine": 'kani+crosshair',
+        "technique": 'bounded model checking of the real Rust source (Kani/CBMC) + symbolic execution of the real Python modules (CrossHair/Z3)',
+        "design_ref": "DESIGN.md section 6, C07",
+        "text": 'OpGet::to_python for every value kind with any content (17 harnesses), 0 and 2 varbinds, Report and request PDUs against the documented table incl. exception classes and their base chain; sync/async Python get()/get_many() map BlockingIOError to TimeoutError and pass everything else through (CrossHair).',
+        "note": 'Trusted: Kani 0.68 / CBMC 6.11 / CaDiCaL; dev-profile semantics; model pyo3 (exception classes by name and base chain); get_many dict construction at op level is listed thorough.',
+    },
+    "C08": {
+        "engine": 'kani',
+        "technique": 'bounded model checking of the real Rust source (Kani/CBMC, SAT verdict over all symbolic inputs within stated bounds)',
+        "design_ref": "DESIGN.md section 6, C08",
+        "text": "SnmpOid::try_from(&str) with the tokenizer's results scripted: for EVERY sequence of 2..4 arcs (any u32 or parse error each) the result is a refusal or exactly the canonical base-128 encoding, first arc <= 2, second <= 39; the real tokenizer (std split + u32::from_str) on concrete valid and malformed texts against a reference tokenizer; refused text sends nothing (send glue).",
+        "note": 'Trusted: Kani 0.68 / CBMC 6.11 / CaDiCaL; dev-profile semantics; Rust std str::split / u32::from_str trusted (symbolic text through them measured infeasible); OID->text in C02.',
+    },
+    "C09": {
+        "engine": 'kani',
+        "technique": 'bounded model checking of the real Rust source (Kani/CBMC, SAT verdict over all symbolic inputs within stated bounds)',
+        "design_ref": "DESIGN.md section 6, C09",
+        "text": "DigestAuth::sign == RFC 2104 transcript (inner/outer key blocks, message as given, first 12 octets placed at the offset, nothing else touched) for any key/message/offset with transcript digests; a v3 authNoPriv message emitted by the real push_pdu equals the reference message with auth flag, MAC field = outer digest prefix, HMAC input = whole message with the field zeroed, key = the session's localized key.",
+        "note": 'Trusted: Kani 0.68 / CBMC 6.11 / CaDiCaL; dev-profile semantics; MD5/SHA-1 primitives outside the claim (M6 transcript digests; parametric generic code); message shape concrete lengths (engine id 5, user 2).',
+    },
+    "C10": {
+        "engine": 'kani',
+        "technique": 'bounded model checking of the real Rust source (Kani/CBMC, SAT verdict over all symbolic inputs within stated bounds)',
+        "design_ref": "DESIGN.md section 6, C10",
+        "text": 'The real unwrap_pdu of a session holding an auth key on otherwise-matching replies of each forgery class. The pinned tree delivers them (no MAC / security-level check exists): recorded as KNOWN findings per class; valid-shape replies and Reports delivered stay guarded.',
+        "note": 'Trusted: Kani 0.68 / CBMC 6.11 / CaDiCaL; dev-profile semantics; MAC validity itself cannot be judged at the unwrap_pdu layer (no raw datagram).',
+    },
+    "C11": {
+        "engine": 'kani',
+        "technique": 'bounded model checking of the real Rust source (Kani/CBMC, SAT verdict over all symbolic inputs within stated bounds)',
+        "design_ref": "DESIGN.md section 6, C11",
+        "text": 'What the privacy layer feeds the cipher mode (cut S9: mode constructors and bulk calls replaced by recorders): DES key = Kul[0..8], IV = Kul[8..16] xor salt, AES key = Kul[0..16], IV = boots||time||salt, plaintext = scoped PDU + zero padding to the block multiple, on the first AND second message (history independence); decrypt hands the whole ciphertext and the right key/IV to the mode and the whole plaintext to the decoder; salts of a length other than 8 refused.',
+        "note": 'Trusted: Kani 0.68 / CBMC 6.11 / CaDiCaL; dev-profile semantics; cbc/cfb-mode/des/aes implementations outside the claim; PDU of 35 octets, engine id 5.',
+    },
+    "C12": {
+        "engine": 'kani+crosshair',
+        "technique": 'bounded model checking of the real Rust source (Kani/CBMC) + symbolic execution of the real Python modules (CrossHair/Z3)',
+        "design_ref": "DESIGN.md section 6, C12",
+        "text": 'Key localisation hashes Ku||engineID||Ku and returns the digest prefix (engine ids 0,12,25,32); password_to_master hashes exactly 2^20 octets of the repeated password for EVERY length 16384..2^20+64; algorithm codes, key types and key sizes are validated (error, never panic); Python User pads/aligns keys and forms algorithm codes (CrossHair).',
+        "note": 'Trusted: Kani 0.68 / CBMC 6.11 / CaDiCaL; dev-profile semantics; passwords shorter than 16 KiB (loop trip count up to 2^20) not decided by the solver; MD5/SHA-1 outside the claim.',
+    },
+    "C13": {
+        "engine": 'kani+crosshair',
+        "technique": 'bounded model checking of the real Rust source (Kani/CBMC) + symbolic execution of the real Python modules (CrossHair/Z3)',
+        "design_ref": "DESIGN.md section 6, C13",
+        "text": 'unwrap_pdu adopts boots/time and a discovered engine id only from ACCEPTED messages and from the USM fields; the next request carries the adopted engine id/boots/time in USM and as context engine id (v3 wire harness); Python refresh() performs refresh, set_keys(deferred user), refresh (sync and async).',
+        "note": 'Trusted: Kani 0.68 / CBMC 6.11 / CaDiCaL; dev-profile semantics; engine ids up to 5 octets; key re-localisation on set_keys covered through as_key_type harnesses (C12).',
+    },
+    "C14": {
+        "engine": 'kani',
+        "technique": 'bounded model checking of the real Rust source (Kani/CBMC, SAT verdict over all symbolic inputs within stated bounds)',
+        "design_ref": "DESIGN.md section 6, C14",
+        "text": 'Two consecutive encrypts from an arbitrary salt seed: DES salt = boots||counter, AES salt = 64-bit counter, each advancing by one (wrapping), 8 octets; uniqueness over < 2^32 / 2^64 messages per key installation is the paper step. With a privacy key the message carries the priv flag, msgData = cipher output, msgPrivacyParameters = returned salt (v3 wire harness, thorough).',
+        "note": 'Trusted: Kani 0.68 / CBMC 6.11 / CaDiCaL; dev-profile semantics; cut S9; sequences longer than 2 by induction.',
+    },
+    "C15": {
+        "engine": 'kani',
+        "technique": 'bounded model checking of the real Rust source (Kani/CBMC, SAT verdict over all symbolic inputs within stated bounds)',
+        "design_ref": "DESIGN.md section 6, C15",
+        "text": "SnmpInt::push_ber == minimal two's complement TLV for EVERY i64 (two queries), decoder(content) == value for every content of 1..8 octets, oracle consistency; OID text->bytes canonical (C08 harnesses); push_tag_len minimal for every length < 65536.",
+        "note": 'Trusted: Kani 0.68 / CBMC 6.11 / CaDiCaL; dev-profile semantics; message-level round trip follows from the encoder==reference (C03/C09) and decoder harnesses; buffer capacity 160.',
+    },
+    "C16": {
+        "engine": 'kani',
+        "technique": 'bounded model checking of the real Rust source (Kani/CBMC, SAT verdict over all symbolic inputs within stated bounds)',
+        "design_ref": "DESIGN.md section 6, C16",
+        "text": 'Every typed decoder and SnmpValue: rest == exactly the octets after the element, value independent of what follows (REAL two-tail query); header length == declared length (reference reading, up to 9 length octets); inner lengths running past the enclosing element and trailing octets after the top-level message are rejected on concrete frames.',
+        "note": 'Trusted: Kani 0.68 / CBMC 6.11 / CaDiCaL; dev-profile semantics; tampered lengths by +1 in quick, +1..4 thorough; v3 trailing in thorough.',
+    },
+    "C17": {
+        "engine": 'kani',
+        "technique": 'bounded model checking of the real Rust source (Kani/CBMC, SAT verdict over all symbolic inputs within stated bounds)',
+        "design_ref": "DESIGN.md section 6, C17",
+        "text": 'One buffer operation from an arbitrary reachable state with arbitrary arguments: in-bounds (CBMC pointer checks over the unsafe blocks), OutOfBuffer iff it does not fit and then nothing changed, exact bytes written; encoder error => SnmpEncodeError and nothing sent (send glue).',
+        "note": "Trusted: Kani 0.68 / CBMC 6.11 / CaDiCaL; dev-profile semantics; capacity 160 in the verification build (hook); exposure of never-written bytes not decided (Kani's uninit checker ICEs here).",
+    },
+    "C18": {
+        "engine": 'kani+crosshair',
+        "technique": 'bounded model checking of the real Rust source (Kani/CBMC) + symbolic execution of the real Python modules (CrossHair/Z3)',
+        "design_ref": "DESIGN.md section 6, C18",
+        "text": 'The real receive loop on the scripted socket with a virtual clock: silent agent => BlockingIOError after exactly the timeout (TimeoutError in Python, CrossHair), a matching reply within the timeout is delivered. With stray datagrams the wait is NOT bounded by the timeout on the pinned tree: recorded as a KNOWN finding.',
+        "note": 'Trusted: Kani 0.68 / CBMC 6.11 / CaDiCaL; dev-profile semantics; async overall deadline (asyncio.wait_for over add_reader) not encodable: not decided.',
     },
 }
 CH = "symbolic execution of the real Python module with CrossHair/Z3 (accepted only when confirmed over all paths)"
